@@ -393,6 +393,12 @@ func TestC02Schedules(t *testing.T) {
 			if ctxAware {
 				k[1] = 1
 			}
+			if ctxAware && alloc[k] >= evt.NumCtx {
+				ctxAware, k = false, [2]int{tt, 0} // out of context-handler classes: a plain one
+			}
+			if !ctxAware && alloc[k] >= evt.NumPlain {
+				return nil // out of classes for this type
+			}
 			c := alloc[k]
 			alloc[k] = c + 1
 			return &conc.Reg{T: tt, Class: c, Ctx: ctxAware, Once: rng.IntN(3) == 0, Filter: rng.IntN(3) == 0}
@@ -400,9 +406,10 @@ func TestC02Schedules(t *testing.T) {
 		var pre []*conc.Reg
 		for tt := 0; tt < 2; tt++ {
 			for k := 2 + rng.IntN(3); k > 0; k-- {
-				r := mk(tt)
-				pre = append(pre, r)
-				w.Subscribe(90, r)
+				if r := mk(tt); r != nil {
+					pre = append(pre, r)
+					w.Subscribe(90, r)
+				}
 			}
 		}
 		for w.NextEID() < 20 {
@@ -464,8 +471,10 @@ func TestC02Schedules(t *testing.T) {
 				tt := rng.IntN(2)
 				switch x := rng.IntN(10); {
 				case x < 4:
-					w.Subscribe(80, mk(tt))
-					sched = append(sched, "sub")
+					if r := mk(tt); r != nil {
+						w.Subscribe(80, r)
+						sched = append(sched, "sub")
+					}
 				case x < 8 && len(pre) > 0:
 					j := rng.IntN(len(pre))
 					w.Unsubscribe(80, pre[j])
